@@ -18,7 +18,7 @@ PATTERNS = ["{pycalver}", "{semver}", "v{semver}", "v{year}{month}{build}{releas
             "{year}{build}{release}", "{year}.{month}.{dom}", "{year}.{month_short}.{dom_short}-{MAJOR}", "{year}q{quarter}.{build_no}",
             "{year}.{doy}.{PATCH}", "{yy}.{month}.{MINOR}", "{MAJOR}.{MM}.{PPP}", "{year}.{BBBB}{release}", "{calver}{build}{release}",
             "{year}.{month}.{dom}.{build_no}{release}", "v{yyyy}.{month}{build}", "{MAJOR}.{MINOR}.{PATCH}-{release_tag}", "rel-{pycalver}!",
-            "{year}.{doy_short}.{BID}"]
+            "{year}.{doy_short}.{BID}", "v{year}.{build_no}.{month_short}", "{MAJOR}.{month}.{dom_short}", "{year}.{BID}.{month_short}.{dom_short}"]
 TAGS = ["final", "alpha", "beta", "rc", "dev", "post"]
 
 
